@@ -235,7 +235,9 @@ def _make_hook(name, world, base):
         if world.record_hooks:
             world.rec('hook', label(self), name)
         world.site(self, f'hook:{name}')
-        return getattr(super(cls_holder[0], self), name)(*args, **kwargs)
+        value = getattr(super(cls_holder[0], self), name)(*args, **kwargs)
+        world.site(self, f'hook:{name}:post')
+        return value
 
     cls_holder = [None]
     hook.__name__ = name
